@@ -382,8 +382,9 @@ Proof. unfold range. rewrite map_length, seq_length. reflexivity. Qed.
 Lemma range_nth a b k : (k < Z.to_nat (b - a))%nat -> nth k (range a b) 0 = a + Z.of_nat k.
 Proof.
   intros Hk. unfold range.
-  rewrite (nth_indep _ 0 ((fun i => a + Z.of_nat i) 0%nat)) by (rewrite map_length, seq_length; exact Hk).
-  rewrite map_nth. rewrite seq_nth by exact Hk. reflexivity.
+  pose proof (map_nth (fun i => a + Z.of_nat i) (seq 0 (Z.to_nat (b - a))) 0%nat k) as M. cbv beta in M.
+  rewrite (nth_indep _ 0 (a + Z.of_nat 0)) by (rewrite map_length, seq_length; exact Hk).
+  rewrite M. rewrite seq_nth by exact Hk. reflexivity.
 Qed.
 
 Lemma fn_walk_between n f : 0 <= f < 2715648 ->
@@ -392,8 +393,9 @@ Proof.
   intros Hf. apply (nth_ext _ _ 0 0).
   - rewrite fn_walk_length, map_length, range_length. lia.
   - intros k Hk. rewrite fn_walk_length in Hk. rewrite (fn_walk_nth n f k Hf Hk).
-    rewrite (nth_indep _ 0 ((fun k => (f + k) mod 2715648) 0)) by (rewrite map_length, range_length; lia).
-    rewrite map_nth. rewrite range_nth by lia. f_equal. lia.
+    pose proof (map_nth (fun k => (f + k) mod 2715648) (range 1 (1 + Z.of_nat n)) 0 k) as M. cbv beta in M.
+    rewrite (nth_indep _ 0 ((f + 0) mod 2715648)) by (rewrite map_length, range_length; lia).
+    rewrite M. rewrite range_nth by lia. f_equal. lia.
 Qed.
 
 (* both frame numbers inside the hyperframe, d = (fn - last_proc) mod 2715648 with 0 < d <= period: the handler gets a dummy burst for
